@@ -1457,6 +1457,47 @@ class AsType(Elemwise):
             meta = clear_known_categories(meta)
         return meta
 
+    def _changes_values(self, columns=None):
+        # Widening a number (int -> float64, float32 -> float64, ...) keeps the
+        # values a predicate compares; everything else may change them
+        before, after = self.frame._meta, self._meta
+        if before.ndim == 1:
+            pairs = [(before.dtype, after.dtype)]
+        else:
+            columns = before.columns if columns is None else columns
+            pairs = [(before[col].dtype, after[col].dtype) for col in columns]
+        for old, new in pairs:
+            if old == new:
+                continue
+            if not (
+                isinstance(old, np.dtype)
+                and isinstance(new, np.dtype)
+                and old.kind in "iuf"
+                and new.kind in "iuf"
+                and np.can_cast(old, new, casting="safe")
+            ):
+                return True
+        return False
+
+    def _reads_cast_columns(self, predicate):
+        for e in predicate.walk():
+            if any(dep._name == self._name for dep in e.dependencies()):
+                if not isinstance(e, Projection) or self.ndim == 1:
+                    if self._changes_values():
+                        return True
+                elif self._changes_values(_convert_to_list(e.operand("columns"))):
+                    return True
+        return False
+
+    def _filter_simplification(self, parent, predicate=None):
+        if predicate is None and self._reads_cast_columns(parent.predicate):
+            # the predicate has to be evaluated on the cast values: filter
+            # the frame with the predicate as it is (same rows, same order)
+            return type(self)(
+                Filter(self.frame, parent.predicate), *self.operands[1:]
+            )
+        return super()._filter_simplification(parent, predicate)
+
     def _simplify_up(self, parent, dependents):
         if isinstance(parent, Filter) and self._filter_passthrough_available(
             parent, dependents
